@@ -24,7 +24,11 @@ fn main() {
         "C11" => report::c11_c12("C11", tier),
         "C12" => report::c11_c12("C12", tier),
         "C13" => report::c13(tier),
+        "C14" => binx::c14(tier),
+        "C15" => c15::run(tier),
+        "C15-call" => c15::child_call(args.get(2).and_then(|s| s.parse().ok()).unwrap_or(0), args.get(3).map(|s| s.as_str()).unwrap_or(""), args.get(4).and_then(|s| s.parse().ok()).unwrap_or(0)),
         "C16" => fsx::c16(tier),
+        "C18" => binx::c18(tier),
         "C17" => c17::run(tier),
         "C19" => c19::run(tier),
         other => {
